@@ -98,3 +98,8 @@ def run(run):
         run.count(("se-invalid", se), nontrivial=False)
     import c10_e2e
     c10_e2e.run(run, bad > 0)
+    # routing of sort_values / set_index on divisions (SetIndex.v: C10_sort_any_divisions_ordered); last, so that the random
+    # draws of the families above are unchanged
+    import setindex_layer
+    setindex_layer.function_layer(run, quick)
+    setindex_layer.sort_order_layer(run, rt, quick)
